@@ -34,7 +34,8 @@ PROP = Prop(
     contracts=[REGISTRY[k] for k in TP + RENDER + COMPOSE],
     claims=['*::C04.*', 'C04.structural.*'],
     structural=[_simple_form],
-    natives={k + '::C04.inserted_text_is_escaped': native_c04.witness for k in COMPOSE},
+    natives=dict([(k + '::C04.inserted_text_is_escaped', native_c04.witness) for k in COMPOSE]
+                 + [(k + '::C04.escaped_at_most_once', native_c04.witness) for k in COMPOSE]),
     native_default=native_c04.native_for,
     bounded=[_bounded],
     z3_ms=1500,     # string queries that z3 does not decide at once stay undecided anyway (cvc5 takes the obligations)
